@@ -571,8 +571,11 @@ def _resume(rep, model):
 
 
 # --------------------------------------------------------------------------
-def _callbacks(rep, model):
-    """R3: one callback per iteration with the current iterate."""
+def _callbacks(rep, model, rule='R3', final_only=False, floor=10):
+    """R3: one callback per iteration with the current iterate.  With
+    ``final_only`` (used by C12-R9) only the clause about the caller's
+    iterate is reported: after n iterations the object the caller passed
+    holds the iterate the n-th iteration produced."""
     def simple(rel, name, mk, niter_kw=None, inner=None):
         return (rel, name, mk, inner)
 
@@ -689,14 +692,25 @@ def _callbacks(rep, model):
                 logs[n] = r['cb']
                 finals[n] = r['final']['x']
         except Undecided as e:
-            rep.undecided('R3', tag, str(e), rel, fn.lineno)
+            rep.undecided(rule, tag, str(e), rel, fn.lineno)
             continue
         except PyRaise as e:
-            rep.violation('R3', name, '%s: raises %s' % (tag, e.name), rel,
+            rep.violation(rule, name, '%s: raises %s' % (tag, e.name), rel,
                           fn.lineno)
             continue
         probs = []
-        for n in (1, 2, 3):
+        if final_only:
+            for n in (1, 2, 3):
+                if logs[n] and logs[n][-1] != finals[n]:
+                    probs.append('after %d iteration%s the caller\'s x does '
+                                 'not hold the iterate that iteration '
+                                 'produced (the one handed to the callback)'
+                                 % (n, 's' if n > 1 else ''))
+                if n > 1 and finals[n] == finals[n - 1]:
+                    probs.append('the caller\'s x is the same after %d and '
+                                 '%d iterations from a generic start'
+                                 % (n - 1, n))
+        for n in (() if final_only else (1, 2, 3)):
             if len(logs[n]) != n * per_iter:
                 probs.append('%d callback calls in %d iterations (expected '
                              '%d)' % (len(logs[n]), n, n * per_iter))
@@ -704,16 +718,18 @@ def _callbacks(rep, model):
                 probs.append('the last callback does not see the final '
                              'iterate')
         # iterate k seen by the callback is the result of k iterations
-        for n in (1, 2):
+        for n in (() if final_only else (1, 2)):
             if len(logs[3]) == 3 * per_iter and len(logs[n]) == n * per_iter:
                 if logs[3][n * per_iter - 1] != finals[n]:
                     probs.append('callback %d does not receive the iterate '
                                  'after iteration %d' % (n * per_iter, n))
         if probs:
-            rep.violation('R3', name, '%s: %s' % (tag, '; '.join(
+            rep.violation(rule, name, '%s: %s' % (tag, '; '.join(
                 sorted(set(probs)))), rel, fn.lineno)
         else:
             n_ok += 1
-            rep.holds('R3', tag, 'exactly %d callback(s) per iteration with '
-                      'the current iterate' % per_iter)
-    rep.floor('R3', 'solver loops with callback analysed', n_ok, 10)
+            rep.holds(rule, tag, 'the caller\'s x holds the iterate of the '
+                      'last iteration, for 1, 2 and 3 iterations'
+                      if final_only else 'exactly %d callback(s) per '
+                      'iteration with the current iterate' % per_iter)
+    rep.floor(rule, 'solver loops with callback analysed', n_ok, floor)
